@@ -1,6 +1,7 @@
 """C14 — track and movie configuration survives mux -> demux.
 
-proof:           Props/C14.v (configuration fields of the writer model reach the final track record unchanged; language packing; duration conversion)
+proof:           Props/C14.v (configuration fields of the writer model reach the final track record unchanged; language packing; duration conversion);
+                 Props/C01Open.v (conf_survives: every accessor of the reader opened on the muxer's bytes returns the configuration)
 correspondence:  extracted Writer model vs the real Mp4Writer
 oracle:          reader accessors on the real muxer's output vs the configuration passed in
 """
@@ -11,7 +12,7 @@ import muxcheck
 import muxgen
 
 LEVEL = "proof"
-CONE = ["Props/C14.v", "Proofs/MuxTotal.v", "Model/Writer.v"]
+CONE = ["Props/C14.v", "Props/C01Open.v", "Proofs/MuxTotal.v", "Proofs/MuxMoovConf.v", "Proofs/MuxOpen.v", "Model/Writer.v", "Model/WriterMoov.v", "Model/Reader.v"]
 
 
 def config_histories(tier, rng):
@@ -65,4 +66,4 @@ def check(rep):
     muxcheck.run_property(rep, "C14", CONE, hs, [muxcheck.oracle_c14],
                           "all AAC object type x frequency index x channel layout triples (thinned in the quick tier), video kinds x boundary dimensions x "
                           "parameter-set lengths {4,5,255,65535}, 25 three-letter languages x timescales x random brand lists, random multi-track histories; "
-                          "every reader accessor compared with the configuration; debug and release")
+                          "every reader accessor compared with the configuration; debug and release", modules=["C14", "C01Open"])
